@@ -1,6 +1,8 @@
 /* E2: header-level exploration through the real reader.  Spaces: paths (C11), integrity (C12), chains/sweeps (C05) */
 #include "arc_common.h"
+#ifndef VF_NO_INTERNALS
 #include "lha_basic_reader.h"
+#endif
 
 static uint8_t ABUF[4 << 20];
 
@@ -323,6 +325,7 @@ static void perturbed_case(const uint8_t *hp, size_t hlen, size_t seed_hdr_len, 
 		if ((v == REF_INT_FAIL || (v == REF_INT_OK && !wf)) && h == NULL) {
 			for (k = 0; k < 3; ++k) if (lha_reader_next_file(rd) != NULL) vf_viol("c12-resumed", "iteration resumed after a rejected header (%s)", why);
 		}
+#ifndef VF_NO_INTERNALS
 		if ((v == REF_INT_FAIL || (v == REF_INT_OK && !wf)) && h == NULL) {
 			/* the same through the layer underneath (lib/lha_basic_reader.h), which the reader and the tool sit on */
 			mem_stream ms2;
@@ -334,6 +337,7 @@ static void perturbed_case(const uint8_t *hp, size_t hlen, size_t seed_hdr_len, 
 			lha_basic_reader_free(br);
 			lha_input_stream_free(st2);
 		}
+#endif
 		if (v == REF_INT_OK && !wf && h != NULL)
 			vf_viol("c12-nameless", "an entry without the required name/path was returned");
 	} else {
